@@ -22,7 +22,7 @@ import (
 //
 //	hook <rate|none> <q|sync>            NewAccessLogHook; SetSampleRate(rate) unless none; SetAsync(q) unless sync
 //	emit <id> <status> <sid> <rid> [extras]   AccessLogHook.emit on a record {n:id,status,stream_id,request_id,…};
-//	                                     field tokens: - absent | n non-string (7) | x<hex> string;
+//	                                     field tokens: - absent | n non-string (7) | t true | f false | i<int> | x<hex> string;
 //	                                     extras: - | x<key>:<field>,… = every other key of the record (trace_id,
 //	                                     span_id, method, principal, arbitrary names) — they vary freely between
 //	                                     records that share a stream id / request id
@@ -45,7 +45,8 @@ func init() {
 		ID: "C39",
 		Rule: "hooks with sampling rates steered to FNV-1a hashes of the key pool (thr = h-1,h,h+1), 0, 1, tiny, invalid (NaN/neg/>1); " +
 			"records over a small pool of stream/request ids with string/non-string/empty/absent fields and ok/error/odd statuses, " +
-			"each carrying independently varied other keys (trace_id, span_id, method, principal, look-alike id keys, values drawn from the same id pool); " +
+			"each carrying independently varied other keys (trace_id, span_id, method, principal, look-alike id keys, values drawn from the same id pool) " +
+			"and the rest of the record schema with typed values (cancelled true/false, http_status, method_type, authenticated, error_type, status-like look-alikes); " +
 			"async queues of capacity 1..5 (and <=0 -> default) under random emit/w/close/drain/hclose schedules with a gated writer; " +
 			"thorough adds every schedule of length <=7 over {emit,emit-err,w,close} for capacities 1 and 2. " +
 			"non-trivial = at least one emit on a hook with an active sampler or an async queue; distinct = distinct scripts",
@@ -168,6 +169,33 @@ func c39Extras(r *Rng, pool []string) string {
 			v = XS(Pick(r, c39Keys))
 		}
 		parts = append(parts, XS(k)+":"+v)
+	}
+	addTyped := func(k, v string) {
+		if !used[k] {
+			used[k] = true
+			parts = append(parts, XS(k)+":"+v)
+		}
+	}
+	// the rest of the access-log record schema, every field varied independently inside a key group:
+	// booleans, numbers and status-like strings on non-error records must not change their fate
+	if r.Chance(45) {
+		addTyped("cancelled", Pick(r, []string{"t", "t", "f", XS("true"), "i1"}))
+	}
+	if r.Chance(30) {
+		addTyped("http_status", Pick(r, []string{"i200", "i400", "i500", "i0", XS("500")}))
+	}
+	if r.Chance(30) {
+		addTyped("method_type", XS(Pick(r, []string{"unary", "stream", "error"})))
+	}
+	if r.Chance(25) {
+		addTyped("authenticated", Pick(r, []string{"t", "f"}))
+	}
+	if r.Chance(25) {
+		addTyped("error_type", XS(Pick(r, []string{"", "ValueError", "error"})))
+	}
+	if r.Chance(20) {
+		addTyped(Pick(r, []string{"error_message", "level", "truncated", "error", "failed", "is_error", "Status", "STATUS", "state", "duration_ms", "request_bytes", "original_request_bytes", "claims"}),
+			Pick(r, []string{"t", "f", "i0", "i1", "n", XS("error"), XS("ERROR"), XS("payload_omitted")}))
 	}
 	// trace_id / span_id vary on (almost) every record, like on a real server with tracing on
 	if r.Chance(85) {
@@ -415,6 +443,13 @@ func c39FieldVal(tok string) (any, bool, bool) { // value, present, ok
 		return nil, false, true
 	case tok == "n":
 		return 7, true, true
+	case tok == "t":
+		return true, true, true
+	case tok == "f":
+		return false, true, true
+	case len(tok) > 1 && tok[0] == 'i':
+		n, err := strconv.Atoi(tok[1:])
+		return n, true, err == nil
 	default:
 		b, ok := UnX(tok)
 		return string(b), true, ok
